@@ -98,6 +98,16 @@ fn nasty_bytes() -> impl Strategy<Value = Vec<u8>> {
             1..=12,
         )
         .prop_map(|cs| cs.into_iter().collect::<String>().into_bytes()),
+        // text that *reads* like an escape, an entity or the end of a value: what a renderer that
+        // edits its own output, or a consumer that unescapes twice, trips over
+        2 => proptest::collection::vec(
+            prop_oneof![
+                Just("\\u0000"), Just("\\u2028"), Just("\\n"), Just("\\\""), Just("\\\\"), Just("\\x00"), Just("\\"), Just("%00"), Just("&quot;"), Just("</script>"),
+                Just("\" }"), Just("\"}"), Just("]}"), Just("\", \"x\": \""), Just("pc"), Just("0000"), Just("u"),
+            ],
+            1..=5,
+        )
+        .prop_map(|v| v.concat().into_bytes()),
         1 => "[a-z0-9-]{1,16}".prop_map(|s| s.into_bytes()),
         1 => Just(vec![]),
     ]
@@ -529,6 +539,57 @@ impl WireProp for C08Http {
                         Some(x) => x,
                     };
                     out.nontrivial = true;
+                    // several requests on ONE connection: every request is judged on its own,
+                    // whatever was granted or refused on the connection before it
+                    if *sel <= 5 {
+                        let pages: Vec<(&str, Option<bool>)> = [("/", "http"), ("/metrics", "http-metrics"), ("/api/v1/leases.json", "http-leases")]
+                            .iter()
+                            .map(|(path, what)| {
+                                (*path, match &fm {
+                                    None => Some(false),
+                                    Some((_, p)) => match *what {
+                                        "http" => p.http,
+                                        "http-metrics" => Some(p.metrics),
+                                        _ => Some(p.leases),
+                                    },
+                                })
+                            })
+                            .collect();
+                        let granted: Vec<&str> = pages.iter().filter(|p| p.1 == Some(true)).map(|p| p.0).collect();
+                        let refused: Vec<&str> = pages.iter().filter(|p| p.1 == Some(false)).map(|p| p.0).collect();
+                        if let (Some(g), false) = (granted.first(), refused.is_empty()) {
+                            let mut seq: Vec<&str> = vec![g];
+                            for r in &refused {
+                                seq.push(r);
+                            }
+                            seq.push(g);
+                            seq.push(refused[0]);
+                            let r = match sel {
+                                0..=2 => http_tcp_seq(IpAddr::V4(CLI4[*sel as usize]), SocketAddr::new(IpAddr::V4(SRV4), 9968), &seq),
+                                _ => http_tcp_seq(IpAddr::V6(cli6(*sel as usize - 3)), SocketAddr::new(IpAddr::V6(srv6()), 9968), &seq),
+                            };
+                            out.class("granted-then-refused-pages-on-one-connection");
+                            match r {
+                                Err(e) => {
+                                    // a server may close after a refusal; what was answered is judged
+                                    out.class("keep-alive-connection-closed-early");
+                                    let _ = e;
+                                }
+                                Ok(rs) => {
+                                    for (path, resp) in seq.iter().zip(rs.iter()) {
+                                        let want = if granted.contains(path) { 200 } else { 403 };
+                                        if resp.status != want {
+                                            out.fail(
+                                                format!("C08:http-keep-alive:{}", if want == 403 { "served-but-model-refuses" } else { "refused-but-model-grants" }),
+                                                format!("{}: requests {:?} on one connection answered {:?}; first-match model (rule {:?}) says {} for {}", desc, seq, rs.iter().map(|r| r.status).collect::<Vec<_>>(), fm.as_ref().map(|x| x.0), want, path),
+                                            );
+                                            return out;
+                                        }
+                                    }
+                                }
+                            }
+                        }
+                    }
                     for (path, what) in [("/", "http"), ("/metrics", "http-metrics"), ("/api/v1/leases.json", "http-leases")] {
                         let granted: Option<bool> = match &fm {
                             None => Some(false),
@@ -589,6 +650,47 @@ impl WireProp for C08Http {
                                             format!("{} {} {}: status 200, first-match model (rule {:?}) refuses {}", desc, method, path, fm.as_ref().map(|x| x.0), what),
                                         );
                                         return out;
+                                    }
+                                }
+                            }
+                            // ... and whatever the spelling of the request target: the content of
+                            // the page (recognised by what only it contains) never reaches that
+                            // client under another spelling of its path either
+                            let marker: Option<&[u8]> = match what {
+                                "http-metrics" => Some(b"# TYPE"),
+                                "http-leases" => Some(b"\"leases\""),
+                                _ => None,
+                            };
+                            if let Some(marker) = marker {
+                                let p = path;
+                                let spellings = [
+                                    format!("GET {}?x=1", p),
+                                    format!("GET {}/", p),
+                                    format!("GET /.{}", p),
+                                    format!("GET /{}", p),
+                                    format!("GET {}#f", p),
+                                    format!("GET {}", p.to_uppercase()),
+                                    format!("GET /%{:02x}{}", p.as_bytes()[1], &p[2..]),
+                                    format!("GET http://erbium{}", p),
+                                    format!("GET {}%00", p),
+                                    format!("GET {};a=b", p),
+                                ];
+                                for mp in spellings.iter() {
+                                    let r = match sel {
+                                        0..=2 => http_tcp(IpAddr::V4(CLI4[*sel as usize]), SocketAddr::new(IpAddr::V4(SRV4), 9968), mp),
+                                        3..=5 => http_tcp(IpAddr::V6(cli6(*sel as usize - 3)), SocketAddr::new(IpAddr::V6(srv6()), 9968), mp),
+                                        6 => http_unix(CONTROL, Some("/var/lib/erbium/cli.sock"), mp),
+                                        _ => http_unix(CONTROL, None, mp),
+                                    };
+                                    out.class("other-spelling-of-a-refused-page");
+                                    if let Ok(r) = r {
+                                        if r.status == 200 && r.body.windows(marker.len()).any(|w| w == marker) {
+                                            out.fail(
+                                                format!("C08:http-{}-served-under-another-spelling", what),
+                                                format!("{} `{}`: status 200 with the page's content, first-match model (rule {:?}) refuses {}", desc, mp, fm.as_ref().map(|x| x.0), what),
+                                            );
+                                            return out;
+                                        }
                                     }
                                 }
                             }
@@ -1002,6 +1104,29 @@ pub fn run_c20_wire(ctx: &Ctx) {
         }
     };
     let prop = C20Wire { raw };
+    // first one client per piece of text that reads like an escape, an entity or the end of a
+    // value (and a few of the separator characters), so that each is seen in every run
+    {
+        let names: Vec<&[u8]> = vec![
+            b"\\u0000", b"pc\\u0000", b"\\u2028", b"\\n", b"\\\"", b"\\\\", b"\\", b"a\\", b"%00", b"&quot;", b"</script>", b"\" }", b"\"}", b"]}", b"\", \"x\": \"", b"printer\0",
+            "\u{2028}".as_bytes(), "\u{2029}".as_bytes(), "\u{feff}".as_bytes(), b"\xff\xfe", b"",
+        ];
+        let case = ListingCase {
+            clients: names.iter().enumerate().map(|(i, n)| (if i % 3 == 0 { Some(HexBytes(vec![0, i as u8, b'"', b'\\'])) } else { None }, Some(HexBytes(n.to_vec())))).collect(),
+            age_every: 0,
+        };
+        let mut out = exec_one(&prop, &case);
+        out.class("one-client-per-escape-like-text");
+        ctx.record(prop.sub(), &case, &out);
+        if let Some(f) = out.fail {
+            if ctx.is_known(&f.sig) {
+                ctx.known_hit(&f.sig);
+            } else {
+                ctx.violation(prop.sub(), &f, &case);
+                return;
+            }
+        }
+    }
     run_wire(ctx, &prop, listing_strategy(ctx.tier.pick(40, 250)), ctx.tier.pick(8, 200), 1);
 }
 
@@ -1304,6 +1429,121 @@ impl C17Wire {
     }
 }
 
+/// An ICMPv6 message in an Ethernet/IPv6 frame to all-routers, checksum computed for the
+/// addresses it carries.
+fn icmp6_frame(src: &Ipv6Addr, hop: u8, icmp: &[u8]) -> Vec<u8> {
+    let dst: Ipv6Addr = "ff02::2".parse().unwrap();
+    let mut icmp = icmp.to_vec();
+    if icmp.len() >= 4 {
+        icmp[2] = 0;
+        icmp[3] = 0;
+        let ck = crate::rfc4861::icmp6_checksum(src, &dst, &icmp);
+        icmp[2] = (ck >> 8) as u8;
+        icmp[3] = ck as u8;
+    }
+    let mut f = vec![0x33, 0x33, 0, 0, 0, 2];
+    f.extend_from_slice(&CLI_MAC);
+    f.extend_from_slice(&[0x86, 0xdd]);
+    f.extend_from_slice(&[0x60, 0, 0, 0]);
+    f.extend_from_slice(&(icmp.len() as u16).to_be_bytes());
+    f.push(58);
+    f.push(hop);
+    f.extend_from_slice(&src.octets());
+    f.extend_from_slice(&dst.octets());
+    f.extend_from_slice(&icmp);
+    f
+}
+
+/// C05 on the wire, router advertisement service: ICMPv6 messages (the seed solicitations and
+/// advertisements, every option type x length family, boundary-family members) reach the real
+/// erbium from every kind of source address a solicitation can carry - link-local, global, the
+/// unspecified address of a host that has none yet, multicast - with hop limit 255 and not; after
+/// every batch an ordinary solicitation must still be answered and the log must show no panic.
+pub fn run_c05_ra_wire(ctx: &Ctx) {
+    let prop = match C17Wire::new() {
+        Ok(p) => p,
+        Err(e) => {
+            ctx.assume(format!("RA wire tier unavailable: {}", e));
+            return;
+        }
+    };
+    let conf = "---\naddresses: [10.55.0.0/24]\napi-listeners: [\"/var/lib/erbium/control\"]\ndns-routes: []\nrouter-advertisements:\n  srv0:\n    lifetime: 600\n    prefixes:\n      - prefix: \"2001:db8:55::/64\"\n";
+    wipe_db();
+    let mut srv = match NetServer::start("erbium", conf, "warn") {
+        Ok(s) => s,
+        Err(e) => {
+            ctx.assume(format!("RA wire tier unavailable: {}", e));
+            return;
+        }
+    };
+    if let Err(e) = srv.wait_dhcp_ready(&prop.raw) {
+        ctx.assume(format!("RA wire tier unavailable: {}", e));
+        return;
+    }
+    std::thread::sleep(Duration::from_millis(150));
+    if prop.solicit().is_none() {
+        ctx.assume("RA wire tier unavailable: no advertisement in answer to an ordinary solicitation".to_string());
+        return;
+    }
+    let mut msgs = mutate::icmp6_seeds();
+    msgs.extend(mutate::icmp6_nested());
+    if ctx.tier == Tier::Thorough {
+        let seeds = mutate::icmp6_seeds();
+        for s0 in &seeds {
+            for i in 0..mutate::family_size(s0.len()) {
+                msgs.push(mutate::family_member(s0, i));
+            }
+        }
+    }
+    let sources: Vec<Ipv6Addr> = vec![prop.cli_ll, Ipv6Addr::UNSPECIFIED, "2001:db8:55::c1".parse().unwrap(), "ff02::1".parse().unwrap(), "::1".parse().unwrap()];
+    let mut frames: Vec<Vec<u8>> = vec![];
+    for (i, m) in msgs.iter().enumerate() {
+        if m.len() > 1400 {
+            continue;
+        }
+        for (k, src) in sources.iter().enumerate() {
+            // every message from the link-local and the unspecified source; the others in turn
+            if k >= 2 && (i + k) % 3 != 0 {
+                continue;
+            }
+            frames.push(icmp6_frame(src, if (i + k) % 7 == 6 { 64 } else { 255 }, m));
+        }
+    }
+    let mut seen_panics = srv.panics().len();
+    for chunk in frames.chunks(48) {
+        let mut out = Outcome::default();
+        out.nontrivial = true;
+        out.class("icmpv6-frames-to-the-router-advertisement-service");
+        let case = DhcpWireCase { hostile: chunk.iter().map(|f| HexBytes(f.clone())).collect() };
+        for f in chunk {
+            let _ = prop.raw.send(f);
+        }
+        std::thread::sleep(Duration::from_millis(80));
+        let alive = prop.solicit().is_some();
+        let panics = srv.panics();
+        if panics.len() > seen_panics {
+            let (line, msg) = &panics[seen_panics];
+            let loc = line.split("panicked at ").nth(1).unwrap_or("").trim_end_matches(':');
+            let file = loc.split(':').next().unwrap_or("").trim_start_matches("crates/");
+            out.fail(panic_sig(msg, &format!("{}:0", file)), format!("a task of the router advertisement service panicked on a received frame: {} {}", line.trim(), msg));
+            seen_panics = panics.len();
+        } else if !srv.alive() {
+            out.fail("C05:service-died", srv.stderr_tail());
+        } else if !alive {
+            out.fail("C05:service-stopped-answering", format!("no advertisement in answer to 4 ordinary solicitations after a batch of {} ICMPv6 frames; {}", chunk.len(), srv.stderr_tail()));
+        }
+        ctx.record("wire-ra", &case, &out);
+        if let Some(f) = out.fail {
+            if ctx.is_known(&f.sig) {
+                ctx.known_hit(&f.sig);
+            } else {
+                ctx.violation("wire-ra", &f, &case);
+                return;
+            }
+        }
+    }
+}
+
 impl WireProp for C17Wire {
     type Case = crate::props_ra::RaCase;
     fn sub(&self) -> &'static str {
@@ -1448,6 +1688,7 @@ pub fn run_c17_wire(ctx: &Ctx) {
         dnssl: None,
         captive: Tri::Absent,
         pref64: None,
+        max_interval: None,
     };
     // configured MTUs below, at and above the MTU of the link the service answers on (1500)
     for mtu in [Tri::Absent, Tri::Null, Tri::Val(1400u32), Tri::Val(1500), Tri::Val(9000), Tri::Val(1280), Tri::Val(65535)] {
